@@ -660,6 +660,12 @@ def check_symbol(matrix, args, meta=None, props=None):
         out.append(('C01', 'accepted-unencodable', {'why': repr(ex)}))
         return [d for d in out if on(d[0])], s, info
     info['parts'] = parts
+    if s.parse_error is not None:
+        # the data bit stream cannot be parsed (typically: content cut at the capacity of the chosen version / level):
+        # none of the properties that are read off the decoded segments can hold for this symbol
+        for pp in ('C04', 'C05', 'C07'):
+            if on(pp) and want is not None:
+                out.append((pp, 'stream-unparsable', {'error': s.parse_error, 'version': s.version, 'level': s.level}))
     check_geometry_and_format(s, out)
     if meta is not None:
         check_metadata(s, meta, out)
